@@ -192,8 +192,33 @@ fn float_surface<Rm: dashu_float::round::Round, const B: dashu_int::Word>(m: &mu
     });
 }
 
-fn case(m: &mut Mon, r: &mut Rng, _idx: u64) {
-    let (mut al, bl) = (edge_mag(r), edge_mag(r));
+/// Printing in every radix at every word count: the divide-and-conquer formatter builds a table of radix powers whose
+/// levels depend on the word count in an irregular way, so the sweep is systematic (all-ones values, which exceed
+/// every table entry of their length) instead of random.
+fn fmt_sweep(m: &mut Mon, idx: u64) {
+    let max_words: u64 = if m.tier == mon::Tier::Thorough { 1300 } else { 300 };
+    let (radix, words) = (2 + (idx % 35) as u32, 3 + idx / 35);
+    if words > max_words {
+        return;
+    }
+    let v = UBig::ones(64 * words as usize);
+    let iv = -IBig::from(v.clone());
+    m.check("fmt_sweep", &format!("r{}", radix), Some(idx ^ 0xf0f0_0000), &|| format!("fmt_sweep radix={} value=2^{}-1", radix, 64 * words), || {
+        judge(Exp::Never, 20_000 + 64 * 64 * words * 8, "in_radix", || {
+            let t = format!("{}", v.in_radix(radix));
+            let t2 = format!("{:#}", iv.in_radix(radix));
+            format!("{} {}", t.len(), t2.len())
+        })?;
+        if radix == 10 {
+            judge(Exp::Never, 20_000 + 64 * 64 * words * 8, "Display", || format!("{}", format!("{}", v).len() + format!("{:?}", iv).len()))?;
+        }
+        Ok(())
+    });
+}
+
+fn case(m: &mut Mon, r: &mut Rng, idx: u64) {
+    fmt_sweep(m, idx);
+    let (mut al, mut bl) = (edge_mag(r), edge_mag(r));
     // related operands: domain edges of two-operand functions sit where one operand is next to the other, to a
     // multiple or to a power of it (ilog just above the base, exact quotients, gcd of near-equal values)
     match r.below(12) {
@@ -204,6 +229,8 @@ fn case(m: &mut Mon, r: &mut Rng, _idx: u64) {
             let sq = nat(&bl) * nat(&bl);
             al = limbs_of_nat(&if r.bool() || sq == num_bigint::BigUint::from(0u8) { sq + num_bigint::BigUint::from(r.below(2)) } else { sq - 1u32 });
         }
+        // b just above a (same word count): the precondition of the unsigned subtraction fails by a little
+        4 => bl = limbs_of_nat(&(nat(&al) + num_bigint::BigUint::from(r.below(3)))),
         _ => {}
     }
     let (na, nb) = (r.bool(), r.bool());
@@ -223,7 +250,26 @@ fn case(m: &mut Mon, r: &mut Rng, _idx: u64) {
     }
     let must = |c: bool| if c { Exp::Must } else { Exp::Never };
     match sel {
-        0 => op!("ubig_sub", must(nat(&al) < nat(&bl)), format!("{}", &ua - &ub)),
+        0 => {
+            // every ownership form and the in-place forms have their own implementation arm
+            let form = r.below(6);
+            op!("ubig_sub", must(nat(&al) < nat(&bl)), match form {
+                0 => format!("{}", &ua - &ub),
+                1 => format!("{}", ua.clone() - &ub),
+                2 => format!("{}", &ua - ub.clone()),
+                3 => format!("{}", ua.clone() - ub.clone()),
+                4 => {
+                    let mut t = ua.clone();
+                    t -= &ub;
+                    format!("{}", t)
+                }
+                _ => {
+                    let mut t = ua.clone();
+                    t -= ub.clone();
+                    format!("{}", t)
+                }
+            })
+        }
         1 => {
             let p = r.word();
             op!("ubig_sub_prim", must(nat(&al) < num_bigint::BigUint::from(p)), format!("{}", &ua - p))
